@@ -242,6 +242,24 @@ fn check_ctx(st: &mut St, trace: u128, span: u64, sampled: bool) {
         if serde_json::from_str::<SpanId>(&esc(&sj)).ok() != Some(s) {
             bad.push(format!("SpanId does not deserialize from escaped JSON text {}", esc(&sj)));
         }
+        // a data format that is not human readable (bincode, MessagePack, ... ask the type through
+        // `is_human_readable()`): the ids are hex text there as well
+        {
+            let t_bin = bin::to_token(&t);
+            let s_bin = bin::to_token(&s);
+            if t_bin != Some(bin::Token::Str(td.clone())) {
+                bad.push(format!("TraceId serialized for a binary format as {:?}, expected the string {:?}", t_bin, td));
+            }
+            if s_bin != Some(bin::Token::Str(sd.clone())) {
+                bad.push(format!("SpanId serialized for a binary format as {:?}, expected the string {:?}", s_bin, sd));
+            }
+            if bin::from_str::<TraceId>(&td) != Some(t) {
+                bad.push(format!("TraceId does not deserialize from the hex string {:?} offered by a binary format", td));
+            }
+            if bin::from_str::<SpanId>(&sd) != Some(s) {
+                bad.push(format!("SpanId does not deserialize from the hex string {:?} offered by a binary format", sd));
+            }
+        }
         {
             use serde::de::value::{Error as DeErr, StrDeserializer, StringDeserializer};
             use serde::de::IntoDeserializer;
@@ -266,6 +284,140 @@ fn check_ctx(st: &mut St, trace: u128, span: u64, sampled: bool) {
         Err(_) => st.viol("id-text-panic", format!("Display/FromStr/serde panicked for ({:x},{:x})", trace, span)),
     }
     st.distinct.insert(hx::rng::fnv(enc.as_bytes()));
+}
+
+/// A minimal serde data format that declares itself not human readable: the serializer records the
+/// one primitive a value is written as, the deserializer offers one string.
+mod bin {
+    use serde::de::{self, Visitor};
+    use serde::ser::{self, Impossible};
+    use serde::{Deserialize, Serialize};
+
+    #[derive(Debug, Clone, PartialEq)]
+    pub enum Token {
+        Str(String),
+        U64(u64),
+        U128(u128),
+        Bytes(Vec<u8>),
+        Other(&'static str),
+    }
+
+    #[derive(Debug)]
+    pub struct Err(String);
+    impl std::fmt::Display for Err {
+        fn fmt(&self, f: &mut std::fmt::Formatter<'_>) -> std::fmt::Result {
+            f.write_str(&self.0)
+        }
+    }
+    impl std::error::Error for Err {}
+    impl ser::Error for Err {
+        fn custom<T: std::fmt::Display>(m: T) -> Self {
+            Err(m.to_string())
+        }
+    }
+    impl de::Error for Err {
+        fn custom<T: std::fmt::Display>(m: T) -> Self {
+            Err(m.to_string())
+        }
+    }
+
+    pub struct Ser;
+    macro_rules! other {
+        ($($f:ident($t:ty)),*) => { $(fn $f(self, _v: $t) -> Result<Token, Err> { Ok(Token::Other(stringify!($f))) })* };
+    }
+    impl ser::Serializer for Ser {
+        type Ok = Token;
+        type Error = Err;
+        type SerializeSeq = Impossible<Token, Err>;
+        type SerializeTuple = Impossible<Token, Err>;
+        type SerializeTupleStruct = Impossible<Token, Err>;
+        type SerializeTupleVariant = Impossible<Token, Err>;
+        type SerializeMap = Impossible<Token, Err>;
+        type SerializeStruct = Impossible<Token, Err>;
+        type SerializeStructVariant = Impossible<Token, Err>;
+        fn is_human_readable(&self) -> bool {
+            false
+        }
+        fn serialize_str(self, v: &str) -> Result<Token, Err> {
+            Ok(Token::Str(v.to_string()))
+        }
+        fn serialize_u64(self, v: u64) -> Result<Token, Err> {
+            Ok(Token::U64(v))
+        }
+        fn serialize_u128(self, v: u128) -> Result<Token, Err> {
+            Ok(Token::U128(v))
+        }
+        fn serialize_bytes(self, v: &[u8]) -> Result<Token, Err> {
+            Ok(Token::Bytes(v.to_vec()))
+        }
+        other!(serialize_bool(bool), serialize_i8(i8), serialize_i16(i16), serialize_i32(i32), serialize_i64(i64), serialize_i128(i128), serialize_u8(u8), serialize_u16(u16), serialize_u32(u32), serialize_f32(f32), serialize_f64(f64), serialize_char(char));
+        fn serialize_none(self) -> Result<Token, Err> {
+            Ok(Token::Other("none"))
+        }
+        fn serialize_some<T: ?Sized + Serialize>(self, v: &T) -> Result<Token, Err> {
+            v.serialize(Ser)
+        }
+        fn serialize_unit(self) -> Result<Token, Err> {
+            Ok(Token::Other("unit"))
+        }
+        fn serialize_unit_struct(self, _n: &'static str) -> Result<Token, Err> {
+            Ok(Token::Other("unit_struct"))
+        }
+        fn serialize_unit_variant(self, _n: &'static str, _i: u32, _v: &'static str) -> Result<Token, Err> {
+            Ok(Token::Other("unit_variant"))
+        }
+        fn serialize_newtype_struct<T: ?Sized + Serialize>(self, _n: &'static str, v: &T) -> Result<Token, Err> {
+            v.serialize(Ser)
+        }
+        fn serialize_newtype_variant<T: ?Sized + Serialize>(self, _n: &'static str, _i: u32, _v: &'static str, _x: &T) -> Result<Token, Err> {
+            Ok(Token::Other("newtype_variant"))
+        }
+        fn serialize_seq(self, _l: Option<usize>) -> Result<Self::SerializeSeq, Err> {
+            Result::Err(Err("seq".into()))
+        }
+        fn serialize_tuple(self, _l: usize) -> Result<Self::SerializeTuple, Err> {
+            Result::Err(Err("tuple".into()))
+        }
+        fn serialize_tuple_struct(self, _n: &'static str, _l: usize) -> Result<Self::SerializeTupleStruct, Err> {
+            Result::Err(Err("tuple_struct".into()))
+        }
+        fn serialize_tuple_variant(self, _n: &'static str, _i: u32, _v: &'static str, _l: usize) -> Result<Self::SerializeTupleVariant, Err> {
+            Result::Err(Err("tuple_variant".into()))
+        }
+        fn serialize_map(self, _l: Option<usize>) -> Result<Self::SerializeMap, Err> {
+            Result::Err(Err("map".into()))
+        }
+        fn serialize_struct(self, _n: &'static str, _l: usize) -> Result<Self::SerializeStruct, Err> {
+            Result::Err(Err("struct".into()))
+        }
+        fn serialize_struct_variant(self, _n: &'static str, _i: u32, _v: &'static str, _l: usize) -> Result<Self::SerializeStructVariant, Err> {
+            Result::Err(Err("struct_variant".into()))
+        }
+    }
+
+    pub fn to_token<T: Serialize>(v: &T) -> Option<Token> {
+        v.serialize(Ser).ok()
+    }
+
+    /// offers one owned string to whatever the type asks for
+    pub struct De(pub String);
+    impl<'de> de::Deserializer<'de> for De {
+        type Error = Err;
+        fn is_human_readable(&self) -> bool {
+            false
+        }
+        fn deserialize_any<V: Visitor<'de>>(self, v: V) -> Result<V::Value, Err> {
+            v.visit_string(self.0)
+        }
+        serde::forward_to_deserialize_any! {
+            bool i8 i16 i32 i64 i128 u8 u16 u32 u64 u128 f32 f64 char str string bytes byte_buf option unit unit_struct
+            newtype_struct seq tuple tuple_struct map struct enum identifier ignored_any
+        }
+    }
+
+    pub fn from_str<T: for<'a> Deserialize<'a>>(s: &str) -> Option<T> {
+        T::deserialize(De(s.to_string())).ok()
+    }
 }
 
 fn field_shapes(width: usize) -> Vec<String> {
